@@ -404,8 +404,16 @@ def run_shard(name, seed, tier, what, n):
     elif what == "map":
         @hseed(seed)
         @hyp_settings(n)
-        @given(st.tuples(fnum, fnum, fnum, fnum, fnum), st.integers(0, 9))
-        def prop(args, degenerate):
+        @given(st.tuples(fnum, fnum, fnum, fnum, fnum), st.integers(0, 9),
+               st.tuples(st.sampled_from([10**9, -10**9, 1_700_000_000_000, 2**40, 1e9, -1e9, 123456789.0, 1e12, 4_000_000, 86_400_000.0]),
+                         st.sampled_from([1, -1, 2, 500, 7, 0.5, -0.25, 1000, 3]), st.integers(-3, 4)))
+        def prop(args, degenerate, narrow):
+            if degenerate in (2, 3):
+                # a narrow source range far from zero (timestamps, large counters): different endpoints, so a valid range
+                base, delta, k = narrow
+                if base + delta != base:
+                    args = (base + (delta * k if degenerate == 2 else delta / 2), base, base + delta, args[3], args[4])
+                    r.count("map:narrow_far_range")
             if degenerate == 0:
                 args = (args[0], args[1], args[1], args[3], args[4])
             elif degenerate == 1:
